@@ -1,6 +1,7 @@
 package main
 
 import (
+	"crypto/rand"
 	"encoding/json"
 	"fmt"
 	"os"
@@ -9,9 +10,25 @@ import (
 	"runtime"
 	"strings"
 	"sync"
+	"time"
+	"unsafe"
 
 	"go.1password.io/spg"
 )
+
+// unsyncReader produces varying bytes with plain Go stores and no shared state.
+type unsyncReader struct{}
+
+func (unsyncReader) Read(p []byte) (int, error) {
+	if len(p) == 0 {
+		return 0, nil
+	}
+	x := uint64(time.Now().UnixNano()) ^ uint64(uintptr(unsafe.Pointer(&p[0])))*0x9e3779b97f4a7c15
+	for i := range p {
+		p[i] = byte(splitmix64(&x) >> 24)
+	}
+	return len(p), nil
+}
 
 // ---------------------------------------------------------------------------
 // C14: recipes, word lists and separator functions are safe to share.
@@ -91,7 +108,7 @@ func init() {
 		Technique: "deterministic simulation of goroutine interleaving: seeded cooperative scheduler releasing one client goroutine at a time at hook yield points (isolation-equality oracle), plus the same episode shapes run unsynchronised under the Go race detector in a separate -race binary",
 		Rule:      "case = one API call by one client inside an interleaved episode (controlled mode) or one unsynchronised episode (race mode); distinct_nontrivial = distinct release sequences (hash of the schedule) with at least one context switch, plus race-mode episodes",
 		Assumptions: []string{"controlled interleavings are decided only at the hook yield points (which include every random draw); interference that needs a preemption between two yield points is left to race mode", "race mode is repeatable (same seed, same operations on the same shared values, hence the same unsynchronised access pairs) but not bit-deterministic: the OS decides the real interleaving", "race mode uses the real OS reader and no hooks, because a shared tape or a baton would order the clients and hide races"},
-		Episodes:    map[string]int{"quick": 1600, "thorough": 60000},
+		Episodes:    map[string]int{"quick": 6000, "thorough": 80000},
 		TwiceEvery:  4,
 		Real:        []string{"all exported methods of CharRecipe, WLRecipe, WordList, SFFunction presets and NewSFFunction closures", "golang-set (including its iterator goroutines)", "Go race detector (race mode)"},
 		Simulated:   []string{"which client goroutine runs next (controlled mode)", "crypto/rand.Reader: one scripted tape per client (controlled mode only)", "alphabet / word index orders"},
@@ -279,8 +296,16 @@ func raceChildMain(args []string) int {
 	if len(args) > 2 {
 		fmt.Sscan(args[2], &reps)
 	}
+	osReader := rand.Reader
 	for i := range specs {
 		os.WriteFile(args[1], []byte(fmt.Sprint(i)), 0644)
+		// every second episode draws from a reader written in Go that has no synchronisation of
+		// its own: the kernel's writes into a buffer are invisible to the race detector, Go stores are not
+		if i%2 == 1 {
+			rand.Reader = unsyncReader{}
+		} else {
+			rand.Reader = osReader
+		}
 		for r := 0; r < reps; r++ {
 			if why := raceEpisode(&specs[i]); why != "" {
 				fmt.Printf("INVALID episode %d: %s\n", i, why)
@@ -423,9 +448,9 @@ func raceSummary(rep string) string {
 }
 
 func c14RaceMode(c *Ctx, tier string, seed uint64) {
-	n := 480
+	n := 1200
 	if tier == "thorough" {
-		n = 12000
+		n = 20000
 	}
 	W := runtime.NumCPU() / 4
 	if W < 1 {
